@@ -19,8 +19,8 @@
 
    Main statements: [C13_history_trace_ok], [C13_history_all_freed], and the rule-free
    [C13_any_run_trace_ok].  [trace_okb] is an executable checker: [trace_okb_iff]. *)
-From CB Require Import Word Word_proofs PMem PItem HHeap HItems HOps HHist.
-From CB Require Import HRef_proofs HCont_proofs HRead_proofs HCopy_proofs HHist_proofs HStepInv_proofs.
+From CB Require Import Word Word_proofs PMem PItem HHeap HItems HOps HHist HHist2 HHist3.
+From CB Require Import HRef_proofs HCont_proofs HRead_proofs HCopy_proofs HHist_proofs HHist3_proofs HStepInv_proofs.
 From Coq Require Import Lia ZArith List Permutation.
 Import ListNotations.
 Local Open Scope N_scope.
@@ -487,6 +487,46 @@ Proof.
   apply NoDup_count_occ' with (decA := N.eq_dec) in Hin; assumption.
 Qed.
 
+(* ---- the same for the third layer of client calls (HHist3: step3 / run_hist3, which embeds the
+   calls of the two earlier layers) ---- *)
+Theorem TrInv_step3 s o w r w' : TrInv w -> step3 refuse L s o w = Ret r w' -> TrInv w'.
+Proof.
+  intros Iw E.
+  eapply (step3_keeps refuse TrInv anyK Tr_rd Tr_wr Tr_touch Tr_free Tr_malloc Tr_realloc L s o w r w'); [|exact Iw|exact E].
+  intros h a _ _. exact I.
+Qed.
+
+Theorem TrInv_run3 : forall ops s acc w r w', TrInv w -> run_hist3 refuse L ops s acc w = Ret r w' -> TrInv w'.
+Proof.
+  induction ops as [|o ops IH]; intros s acc w r w' Iw E; cbn [run_hist3] in E.
+  - unfold ret in E. injection E as _ <-. exact Iw.
+  - apply bind_inv in E. destruct E as (so & w1 & E1 & E2).
+    eapply IH; [|exact E2]. eapply TrInv_step3; eassumption.
+Qed.
+
+Theorem C13_any_run3_trace_ok : forall ops s' outs w',
+  run_hist3 refuse L ops s3_0 [] world0 = Ret (s', outs) w' ->
+  trace_ok (rev (trace w')) /\
+  (forall p, heap w' p <> None <-> In p (returned_in (rev (trace w'))) /\ ~ In p (released_in (rev (trace w')))).
+Proof.
+  intros ops s' outs w' E. pose proof (TrInv_run3 ops s3_0 [] world0 _ _ TrInv_world0 E) as (A & B & _).
+  split; [apply tr_ok_rev_ok; exact A|].
+  intros p. rewrite B. unfold returned_in, released_in. rewrite !in_flat_map_rev. reflexivity.
+Qed.
+
+Theorem C13_history3_trace_ok : forall ops,
+  legal_history3 refuse L ops s3_0 own0 world0 ->
+  exists s' outs w', run_hist3 refuse L ops s3_0 [] world0 = Ret (s', outs) w' /\
+    trace_ok (rev (trace w')) /\
+    NoDup (released_in (rev (trace w'))) /\ NoDup (returned_in (rev (trace w'))) /\
+    (forall p, In p (released_in (rev (trace w'))) -> In p (returned_in (rev (trace w')))).
+Proof.
+  intros ops Lg. destruct (C04_history3 refuse L ops Lg) as (s' & outs & w' & E & _).
+  exists s', outs, w'. split; [exact E|]. split; [apply (C13_any_run3_trace_ok ops s' outs w' E)|].
+  pose proof (TrInv_run3 ops s3_0 [] world0 _ _ TrInv_world0 E) as (A & _).
+  apply trace_ok_freed_at_most_once. exact A.
+Qed.
+
 End Prims.
 
 (* ------------------------------------------------------------------------------------------ *)
@@ -586,5 +626,7 @@ Print Assumptions C13_any_run_trace_ok.
 Print Assumptions C13_history_trace_ok.
 Print Assumptions C13_history_released_once.
 Print Assumptions C13_history_all_freed.
+Print Assumptions C13_any_run3_trace_ok.
+Print Assumptions C13_history3_trace_ok.
 Print Assumptions trace_okb_iff.
 Print Assumptions ex13_rules.
